@@ -500,6 +500,7 @@ type c14Gen struct {
 	seq        int
 	pendingPub string // channel a SUBSCRIBE was just generated for
 	pendingHow int
+	dbs        int // numbered databases of this run (SELECT is generated when > 1)
 }
 
 // word produces an argument payload carrying (some of) the run's features.
@@ -614,8 +615,28 @@ func (g *c14Gen) pubsub() []B {
 	return bs(spell(r, "publish", r.Intn(5)), ch(), g.word())
 }
 
+// selectCmd: SELECT with a valid index mostly, now and then one that must be
+// refused (out of range, malformed) and leave the selection where it was.
+func (g *c14Gen) selectCmd() []B {
+	r := g.r
+	name := spell(r, "select", r.Intn(5))
+	if r.Bool(0.8) {
+		return bs(name, itoa(r.Intn(g.dbs)))
+	}
+	switch r.Intn(3) {
+	case 0:
+		return bs(name, pick(r, []string{itoa(g.dbs), itoa(g.dbs + 7), "-1", "99999999999999999999"}))
+	case 1:
+		return bs(name, pick(r, []string{"01", "+1", "x", "", "1 ", "0x1"}))
+	}
+	return pick(r, [][]B{bs(name), bs(name, "0", "1")})
+}
+
 func (g *c14Gen) cmd() []B {
 	r := g.r
+	if g.dbs > 1 && r.Bool(0.18) {
+		return g.selectCmd()
+	}
 	if g.feats["filtered"] && (g.pendingPub != "" || r.Bool(0.2)) {
 		return g.pubsub()
 	}
@@ -713,7 +734,12 @@ func genC14(rng *core.Rand, env *core.Env, run int) *Scenario {
 		k.DropPM, k.ReorderPM, k.UnreachPM = pick(r, []int{20, 60, 120}), pick(r, []int{0, 100}), 300
 		sc.Faults = FaultPlan{Kinds: []string{"isolate-leader"}, RatePM: 15, MaxFault: 1, HoldMin: 40, HoldMax: 200, MinorityOnly: true}
 	}
-	g := &c14Gen{r: r, feats: map[string]bool{}}
+	g := &c14Gen{r: r, feats: map[string]bool{}, dbs: 1}
+	// a share of the runs has several numbered databases and interleaves SELECT
+	if r.Bool(0.3) {
+		g.dbs = 2 + r.Intn(3)
+		k.Databases = g.dbs
+	}
 	// swarm over argument features; a third of the runs is plain
 	type feat struct{ name, class string }
 	all := []feat{{"space", "arg-with-space"}, {"empty", "empty-arg"}, {"crlf", "arg-with-crlf"}, {"nonutf8", "non-utf8-arg"}, {"case", "mixed-case"}, {"filtered", "filtered-command"}}
